@@ -227,6 +227,11 @@ def run(tier='quick'):
     _row_existence(prog, cg, eff, chk, B5)
     _lookup_keys(prog, cg, eff, chk, B7, order, cats, lo2, hi2)
     chk.extra['statements'] = len(all_maps)
+    B9 = chk.rule('B9', 'row identifiers stay 64 bits wide on their way through the table API: every parameter bound '
+                        'against an identifier column (directly or through a callee), every lambda parameter that '
+                        'receives one, and the constructors / id() of the handle classes', floor=100)
+    from .. import domains
+    domains.apply_width_rule(prog, cg, eff, chk, B9)
     B8 = chk.rule('B8', 'the util helpers that carry nullable columns to optional row fields and back '
                         '(optional<A> -> optional<B>) yield a value exactly when given one', floor=4)
     rowrules.optional_lifts(prog, chk, B8)
